@@ -137,8 +137,17 @@ impl Check for C47 {
                 }
             }
         };
+        // 1 case in 6: type(binary) - the file's bytes are the characters
+        let binary = rng.chance(1, 6);
+        if binary {
+            for x in spec.iter_mut() {
+                if x.0 > 255 || x.0 == mark {
+                    x.0 = if x.0 == mark { mark } else { *rng.pick(&[0u32, 10, 128, 200, 255, 65]) };
+                }
+            }
+        }
         let spec_json: Vec<Value> = spec.iter().map(|(c, n)| json!([c, n])).collect();
-        json!({"spec": spec_json, "grammar": g, "short_state": rng.next() | 1, "short_max": *rng.pick(&[1u64, 2, 3, 7, 64, 1000, 8191])})
+        json!({"binary": binary, "spec": spec_json, "grammar": g, "short_state": rng.next() | 1, "short_max": *rng.pick(&[1u64, 2, 3, 7, 64, 1000, 8191])})
     }
 
     fn exec(&mut self, case: &Value) -> Outcome {
@@ -160,7 +169,9 @@ impl Check for C47 {
                 }
             }
         }
-        if std::fs::write(&file, text.as_bytes()).is_err() {
+        let binary = case["binary"].as_bool().unwrap_or(false);
+        let raw: Vec<u8> = if binary { spec.iter().flat_map(|(c, n)| std::iter::repeat(*c as u8).take(*n as usize)).collect() } else { text.as_bytes().to_vec() };
+        if std::fs::write(&file, &raw).is_err() {
             eprintln!("cannot write scratch file {file}");
             std::process::exit(2);
         }
@@ -177,7 +188,7 @@ impl Check for C47 {
         };
         let spec_txt: Vec<String> = spec.iter().map(|(c, n)| format!("{c}-{n}")).collect();
         let q_mem = format!("c47_mem({gtxt}, [{}], R).", spec_txt.join(","));
-        let q_file = format!("c47_file({gtxt}, '{file}', [], R), c47_open_streams('{file}', Open).");
+        let q_file = format!("c47_file({gtxt}, '{file}', [{}], R), c47_open_streams('{file}', Open).", if binary { "type(binary)" } else { "" });
         let mut h = 0xcbf29ce484222325u64;
         hash_bytes(&mut h, q_mem.as_bytes());
         out.bump("chars_in_files", text.chars().count() as u64);
